@@ -18,13 +18,20 @@ pub fn check(tier: Tier) -> Check {
             tier.pick(30, 600),
         ));
     }
+    // locally refused requests (send quota, Maximum Packet Size) in the history: a refused request has
+    // consumed an identifier like any other; with the context task held back, refusals and accepted
+    // requests of other callers complete in one go
+    for k in 1..=2u32 {
+        parts.push(Part::new("C11/near-wrap", json!({"depth": tier.pick(5, 6) - k as usize + 1, "r": 1, "refusals": true}), k, tier.pick(30, 600)));
+        parts.push(Part::new("C11/near-wrap", json!({"depth": tier.pick(4, 5) - k as usize + 1, "m": 12, "refusals": true}), k, tier.pick(30, 600)));
+    }
     parts.push(Part::new("C11/hook-validate", json!({}), 0, 120));
     parts.push(Part::new("C11/loom", json!({"thorough": tier == Tier::Thorough}), 0, 600));
     Check {
         also_rel: false,
         property: "C11",
         level: "model_checking",
-        rule: "(a) 12 deterministic runs of 70 000 identifier-consuming operations through the real handle/context (QoS 1 only, QoS 2 only, subscribe only, round robin) with 0, 1 or 3 acknowledgements outstanding; (b) all sequences of operation starts and acknowledgements up to the stated depth from counters preset (hook) to 65533/65534/65535 and subscription identifiers preset to 1/127/268435454; (c) differential validation of the hook against an honest run to the same point; (d) loom: all interleavings (unbounded; 3x2 with preemption bound 3 in thorough) of 2 threads x 2 and 3 threads x 1 first polls of publish QoS 1/2, subscribe, unsubscribe on real handle clones at the two library atomics, started at counters 1 and next to the wrap, drained through the real Context and decoded; oracle: every identifier on the wire is non-zero (strict decoder), differs from every outstanding one, subscription identifiers are never reused, no panic; non-trivial = the packet identifier counter wrapped".into(),
+        rule: "(a) 12 deterministic runs of 70 000 identifier-consuming operations through the real handle/context (QoS 1 only, QoS 2 only, subscribe only, round robin) with 0, 1 or 3 acknowledgements outstanding; (b) all sequences of operation starts and acknowledgements up to the stated depth from counters preset (hook) to 65533/65534/65535 and subscription identifiers preset to 1/127/268435454; (b') the same with Receive Maximum 1 or Maximum Packet Size 12 in force, so that locally refused requests sit between the accepted ones, the context task held back and released (deviations); (c) differential validation of the hook against an honest run to the same point; (d) loom: all interleavings (unbounded; 3x2 with preemption bound 3 in thorough) of 2 threads x 2 and 3 threads x 1 first polls of publish QoS 1/2, subscribe, unsubscribe on real handle clones at the two library atomics, started at counters 1 and next to the wrap, drained through the real Context and decoded; oracle: every identifier on the wire is non-zero (strict decoder), differs from every outstanding one, subscription identifiers are never reused, no panic; non-trivial = the packet identifier counter wrapped".into(),
         assumptions: vec![
             "fewer than 65535 identifiers are allocated while any operation is outstanding (premise of the property)".into(),
             "loom explores interleavings at the two library atomics only; futures-channel (std atomics) is in the trusted base".into(),
@@ -179,9 +186,14 @@ pub fn scenario(name: &str, params: &Value) -> Scenario {
         let mut sys = Sys::new("C11", &name, chz);
         sys.params = params.clone();
         sys.m.check_client_acks = false;
-        sys.bring_up(vec![]);
-        let pid0 = [65533u16, 65534, 65535][chz.choose(3)];
-        let sub0 = [1u32, 127, 268_435_454][chz.choose(3)];
+        let mut cprops = params["r"].as_u64().map(|r| receive_max(r as u16)).unwrap_or_default();
+        if let Some(m) = params["m"].as_u64() {
+            cprops.push(pvcore::refcodec::Prop::u32(pvcore::refcodec::P_MAXIMUM_PACKET_SIZE, m as u32));
+        }
+        sys.bring_up(cprops);
+        let refusals = params["refusals"].as_bool().unwrap_or(false);
+        let pid0 = if refusals { [1u16, 65534][chz.choose(2)] } else { [65533u16, 65534, 65535][chz.choose(3)] };
+        let sub0 = if refusals { 1 } else { [1u32, 127, 268_435_454][chz.choose(3)] };
         sys.events.push(format!("PresetCounters(packet_id={}, sub_id={})", pid0, sub0));
         sys.w.handle().verif_set_ids(pid0, sub0);
         let specs = vec![
